@@ -183,8 +183,19 @@ fn live_body(senders: usize, per: usize, closer: Closer, self_send: bool, wrong_
             if wrong_type {
                 let cell = a.get_cell();
                 wrong = Some(vsched::spawn("sender", async move {
-                    let r = cell.send_message::<String>("not a PMsg".to_string());
-                    matches!(r, Err(MessagingErr::InvalidActorType))
+                    // every public way of sending, through a handle of the wrong message type
+                    let mut ok = matches!(cell.send_message::<String>("not a PMsg".to_string()), Err(MessagingErr::InvalidActorType));
+                    let typed: ractor::ActorRef<String> = cell.clone().into();
+                    ok &= matches!(typed.send_message("not a PMsg".to_string()), Err(MessagingErr::InvalidActorType));
+                    ok &= matches!(typed.cast("not a PMsg".to_string()), Err(MessagingErr::InvalidActorType));
+                    ok &= matches!(ractor::rpc::cast(&cell, "not a PMsg".to_string()), Err(MessagingErr::InvalidActorType));
+                    let r = typed.call(|_reply: ractor::RpcReplyPort<u32>| "not a PMsg".to_string(), Some(std::time::Duration::from_millis(5))).await;
+                    ok &= matches!(r, Err(MessagingErr::InvalidActorType));
+                    let r = ractor::rpc::call(&cell, |_reply: ractor::RpcReplyPort<u32>| "not a PMsg".to_string(), Some(std::time::Duration::from_millis(5))).await;
+                    ok &= matches!(r, Err(MessagingErr::InvalidActorType));
+                    let h = typed.send_after(std::time::Duration::from_millis(1), || "not a PMsg".to_string());
+                    ok &= matches!(h.await, Ok(Err(MessagingErr::InvalidActorType)));
+                    ok
                 }));
             }
             let a2 = a.clone();
@@ -227,7 +238,7 @@ fn live_body(senders: usize, per: usize, closer: Closer, self_send: bool, wrong_
                 bad.push("join handle failed".into());
             }
             if wrong_ok != Some(true) {
-                bad.push("a send with the wrong message type was not rejected with InvalidActorType".into());
+                bad.push("a send (send_message / cast / call / send_after, through the cell or a wrongly typed ActorRef) with the wrong message type was not rejected with InvalidActorType".into());
             }
             for s in &sends {
                 let n = handled.iter().filter(|x| **x == s.2).count();
